@@ -82,6 +82,19 @@ def check(pm: ProgramModel, ctx: Ctx) -> None:
             validate(ctx, pm, writer, f"{P}-COVER", f"kind-nested:{k}:{d}", mb.model(root, []),
                      f"relation {d} ({k}) under an optional parent", fragment=(k != "other1"))
             ndone += 2
+            if d in (D(1, 1, 1), D(0, 1, 1), D(1, 1, 2), D(1, 2, 2), D(0, 1, 2), D(2, 2, 3), D(1, 2, 3)):
+                # the same, every feature decorated (abstract flags, attributes): which configurations exist is
+                # a matter of the tree and the constraints only
+                root = mb.feature("Root")
+                par = mb.feature("Par", is_abstract=True)
+                mb.relation(root, [par], 0, 1)
+                kids = [mb.feature(f"n{j}", is_abstract=(j == 0)) for j in range(d.n)]
+                mb.relation(par, kids, d.min, d.max)
+                for i_, f_ in enumerate([par] + kids):
+                    f_._f["attributes"].append(mb.attribute("cost", i_ + 1, f_))
+                    f_._f["attributes"].append(mb.attribute("note", "n", f_))
+                validate(ctx, pm, writer, f"{P}-COVER", f"kind-decorated:{k}:{d}", mb.model(root, []),
+                         f"relation {d} ({k}) under an optional abstract parent, features carrying attributes")
         for ds in [(D(1, 1, 1), D(0, 1, 1), D(1, 2, 2)), (D(0, 1, 2), D(1, 1, 2)), (D(2, 2, 3), D(0, 1, 1)),
                    (D(1, 1, 1), D(1, 1, 1), D(0, 1, 1))]:
             validate(ctx, pm, writer, f"{P}-COVER", "several:" + "+".join(kind(d) for d in ds), kind_model(mb, ds),
